@@ -52,7 +52,7 @@ def stepdown_oracle(ts, tv, method, two):
 
 
 def gen(ctx):
-    reps = ctx.rng.choice([1, 2, 3, 4, 6, 7, 10, 15, 25])
+    reps = ctx.rng.choice([1, 2, 3, 4, 6, 7, 10, 15, 25]) if ctx.rng.random() < 0.93 else ctx.rng.choice([60, 101])
     m = ctx.rng.randint(1, 4)
     hi = ctx.rng.choice([1, 2, 4, 8])
     tv = [[ctx.rng.randint(-hi, hi) for _ in range(m)] for _ in range(reps)]
@@ -85,7 +85,7 @@ def run(ctx):
             t_ = ctx.rng.random() < 0.5; alts = ["two-sided" if t_ else "greater"] * m; two = [t_] * m
         else:
             two = [ctx.rng.random() < 0.5 for _ in range(m)]; alts = ["two-sided" if t_ else "greater" for t_ in two]
-        kinds = [ctx.rng.choice(["np", "float", "int"]) for _ in range(m)]
+        kinds = [ctx.rng.choice(["np", "float", "int", "f32", "i64"]) for _ in range(m)]
         ip = ctx.rng.random() < 0.3
         e, tests, st = scripted_experiment(tv, ts, kinds)
         r = guarded(npc.westfall_young, e, tests, method=method, alternatives=alts, reps=reps, in_place=ip)
